@@ -220,6 +220,8 @@ pub enum Kind {
     ReceiveSignalsIntoInner,
     /// A `ReadBuf` that already holds data, passed to another read (made with `make_reread`).
     RereadHeld,
+    /// `to_file_descriptor` (only meaningful when the base descriptor is direct).
+    ToFd,
 }
 
 #[derive(Clone, Copy, Debug, PartialEq, Eq)]
@@ -261,7 +263,7 @@ impl Kind {
             MultishotRead | MultishotRecv => Class::StreamBuf,
             MultishotAccept => Class::StreamDesc,
             Accept | AcceptNoAddr | OpenFile | OpenDirect | Socket | SocketDirect | Pipe
-            | PipeDirect | ToDirect | OpenTemp => Class::Desc,
+            | PipeDirect | ToDirect | OpenTemp | ToFd => Class::Desc,
             ReadN | WriteAll | WriteAllVectored | SendAll | RecvN | ReadNVectored | SendAllVectored => Class::Composite,
             Pollable => Class::StreamUnit,
             ReceiveSignals | ReceiveSignalsIntoInner => Class::Rearm,
@@ -405,6 +407,7 @@ pub fn make(kind: Kind, env: &Env<'_>) -> Op {
         SendAll => single(fd.send_all(data(n, 5)), |(): (), _| "unit".to_string()),
         CloseFd => unreachable!("CloseFd is made with make_close"),
         RereadHeld => unreachable!("RereadHeld is made with make_reread"),
+        ToFd => single(fd.to_file_descriptor(), |f: AsyncFd, h| fd_str(f, h)),
         Listen => single(fd.listen(16 + n as u32), |(): (), _| "unit".to_string()),
         PeerAddr => single(fd.peer_addr::<SocketAddr>(), |a: SocketAddr, _| format!("addr:{a}")),
         SyncData => single(fd.sync_data(), |(): (), _| "unit".to_string()),
